@@ -131,6 +131,9 @@ def _is_scalar(v):
     return isinstance(v, (builtins.int, builtins.float, builtins.bool, core.Fraction, Sym)) or v is None
 
 
+_UBITS = {'uint8': 8, 'uint16': 16, 'uint32': 32}
+
+
 def _coerce(v, dt):
     """Value as stored into an array of dtype dt."""
     k = dt.kind
@@ -150,11 +153,20 @@ def _coerce(v, dt):
         return v
     if k in 'iu':
         if isinstance(v, (SymReal, SymFP)):
-            return core.sym_int(v)
-        if isinstance(v, builtins.float):
-            return builtins.int(v)
-        if isinstance(v, builtins.bool):
-            return builtins.int(v)
+            v = core.sym_int(v)
+        elif isinstance(v, builtins.float):
+            v = builtins.int(v)
+        elif isinstance(v, builtins.bool):
+            v = builtins.int(v)
+        bits = _UBITS.get(dt.name)
+        if bits is not None and v is not None:
+            # fixed-width unsigned storage wraps (what the Numba-compiled kernels do silently)
+            if isinstance(v, SymInt):
+                if v._conc is not None:
+                    return v._conc % (1 << bits)
+                return core.mk_int(core.as_int(v) % (1 << bits), v.tag)
+            if isinstance(v, builtins.int):
+                return v % (1 << bits)
         return v
     if k == 'b':
         if isinstance(v, (builtins.int, builtins.float)) and not isinstance(v, builtins.bool):
